@@ -697,7 +697,13 @@ std::size_t dataframe::read_csv(std::istream &from, params p)
   {
     if (p.output_index)
     {
-      assert(p.output_index < record.size());
+      // Skips records that are too short to contain the output column.
+      if (*p.output_index >= record.size())
+      {
+        vitaWARNING << "Malformed example skipped (missing output column)";
+        continue;
+      }
+
       //std::swap(record[0], record[*p.output_index]);
       if (p.output_index > 0)
         std::rotate(record.begin(),
